@@ -488,6 +488,8 @@ pub fn build_and_run(case: &Case) -> Outcome {
     if !case.inject.is_empty() {
         // a UDP listener that must never see an injected frame
         server_machine = with_recorder(server_machine, 0, 0, &wire, &log, vec![Endpoint::new(server_ip, 9)], &bind_results);
+        // and a DHCP server whose decoder must drop what it cannot decode (C14)
+        server_machine = server_machine.with(elvis::applications::DhcpServer::new(server_ip, elvis::ip_generator::IpRange::new(Ipv4Address::new([10, 1, 0, 200]), Ipv4Address::new([10, 1, 0, 220]))));
     }
     let mut machines = vec![server_machine.with(StreamServer { port: 80, scripts: case.server_scripts.clone(), reports: reports.clone(), remaining: remaining.clone(), first_read: case.first_read }).arc()];
     for c in 0..case.nclients {
